@@ -467,9 +467,14 @@ class C14(World):
             self.enabled_faults = [k for k in NET_FAULTS if ch.flag("cfg.fault." + k, 0.5)]
         n_slots = 1 + ch.pick("cfg.n_slots", 4)
         self.slots = []
+        # in part of the runs every identity carries the same ORG/FID, so that institutions are told apart by
+        # their URLs alone
+        same_orgfid = ORGFID[ch.pick("id.same_orgfid.v", len(ORGFID))] if ch.flag("id.same_orgfid", 0.3) else None
         for j in range(n_slots):
             fi = self.fis[ch.pick("id.fi", n_fi)]
             org, fid = ORGFID[ch.pick("id.orgfid", len(ORGFID))]
+            if same_orgfid is not None:
+                org, fid = same_orgfid
             ver = VERSIONS[ch.pick("id.version", len(VERSIONS))]
             close = True if ver >= 200 else not ch.flag("id.unclosed", 0.4)
             ua = [None, "MoneyApp/4.2 (sim)", "X"][ch.pick("id.useragent", 3)]
